@@ -24,7 +24,15 @@ def evidence_extra():
 
 
 @st.composite
-def fit_case(draw):
+def fit_case(draw, large=False):
+    if large:
+        s = draw(E.kauri_spec(n_max=320, d_max=4, kinds=("normal", "grid", "offset")))
+        s["n"] = draw(st.integers(120, 320))
+        s["kernel"]["form"] = draw(st.sampled_from(["named", "precomputed", "psd"]))
+        s["max_depth"] = draw(st.sampled_from([None, 8, 12]))
+        s["max_leaves"] = draw(st.sampled_from([None, 40, 12]))
+        s["max_clusters"] = draw(st.sampled_from([3, 6, 10, 2]))
+        return {"spec": s, "qseed": draw(gens.seeds), "variants": ["so"]}
     return {"spec": draw(E.kauri_spec(n_max=40, d_max=4)), "qseed": draw(gens.seeds)}
 
 
@@ -176,6 +184,8 @@ def oracle_fit(case):
         np.ascontiguousarray(pairwise_kernels(X, metric=s["kernel"]["name"]), dtype=np.float64)
     out = None
     for name, mod in VARIANTS.items():
+        if case.get("variants") and name not in case["variants"]:
+            continue
         est, y = E.build_kauri(s, X)
         subsets = []
 
@@ -201,4 +211,5 @@ def oracle_fit(case):
 
 
 def subs():
-    return [Sub("fits", fit_case(), oracle_fit, 800, 30000, "fitted trees x variants")]
+    return [Sub("fits", fit_case(), oracle_fit, 800, 30000, "fitted trees x variants"),
+            Sub("fits_large", fit_case(large=True), oracle_fit, 40, 1200, "trees on 120-320 samples (deep trees; imported extension only)")]
